@@ -77,7 +77,7 @@ pub const ALL_ENCS: [EncId; 9] = [
     EncId::Stable,
 ];
 
-fn make(e: EncId) -> Box<dyn ConstraintsEncoder<usize>> {
+pub fn make(e: EncId) -> Box<dyn ConstraintsEncoder<usize>> {
     match e {
         EncId::Menu(m) => make_encoder::<usize>(m).unwrap(),
         EncId::Stable => Box::<DefaultStableConstraintsEncoder>::default(),
